@@ -350,6 +350,7 @@ structure GD (c : Dynamic) (groups : List (List BDoc)) : Prop where
   one : ∀ g ∈ groups, OneHash g
   last : ∀ h, c.hash = some h → ∀ g, groups.getLast? = some g → ∀ d ∈ g, (schemaKey d).1 = h.1
   fresh : c.hash = none → c.chunks = [Batch.new c.maxSamples] ∧ groups = [[]]
+  ne : c.chunks ≠ []
 
 theorem map_eq_concat {α β γ : Type} (f : α → γ) (g : β → γ) (init : List α) (last : α) (l : List β)
     (h : (init ++ [last]).map f = l.map g) :
@@ -386,42 +387,52 @@ theorem batch_add_maxSamples (b : Batch) (d : BDoc) : (b.add d).1.maxSamples = b
   · rfl
   · split <;> rfl
 
+theorem dyn_add_none (c : Dynamic) (d : BDoc) (hh : c.hash = none) (b : Batch) (r : List Batch)
+    (hc : c.chunks = b :: r) :
+    c.add d = ({ c with hash := some (schemaKey d), chunks := (b.add d).1 :: r }, (b.add d).2) := by
+  unfold Dynamic.add; simp [hh, hc]
+
+theorem dyn_add_same (c : Dynamic) (d : BDoc) (hsh : Bytes × Nat) (hh : c.hash = some hsh)
+    (hk : hsh.1 = (schemaKey d).1) (last : Batch) (hl : c.chunks.getLast? = some last) :
+    c.add d = ({ c with chunks := c.chunks.dropLast ++ [(last.add d).1] }, (last.add d).2) := by
+  unfold Dynamic.add; simp [hh, hk, hl]
+
+theorem dyn_add_new (c : Dynamic) (d : BDoc) (hsh : Bytes × Nat) (hh : c.hash = some hsh)
+    (hk : ¬ hsh.1 = (schemaKey d).1) :
+    c.add d = ({ c with hash := some (schemaKey d), chunks := c.chunks ++ [((Batch.new c.maxSamples).add d).1] },
+      ((Batch.new c.maxSamples).add d).2) := by
+  unfold Dynamic.add; simp [hh, hk]
+
 theorem gd_step (c : Dynamic) (groups : List (List BDoc)) (d : BDoc) (g : GD c groups) :
-    ∃ groups', GD (c.add d).1 groups' := by
-  unfold Dynamic.add
+    ∃ groups', GD (c.add d).1 groups' ∧
+      groups'.flatten = groups.flatten ++ (if (c.add d).2 = .ok then [d] else []) := by
   cases hh : c.hash with
   | none =>
     obtain ⟨hc, hg⟩ := g.fresh hh
-    dsimp only
-    rw [hc]
-    dsimp only
+    rw [dyn_add_none c d hh _ [] hc]
     obtain ⟨f1, f2, f3, f4⟩ := batch_fresh_add c.maxSamples g.pos d
-    refine ⟨[[d]], ⟨g.pos, by simp [f2], ?_, ?_, ?_, by intro h; simp at h⟩⟩
+    refine ⟨[[d]], ⟨g.pos, by simp [f2], ?_, ?_, ?_, by intro h; simp at h, by simp⟩, by simp [hg, f1]⟩
     · intro b hb; simp at hb; subst hb; exact ⟨f3, f4⟩
     · intro x hx; simp at hx; subst hx; exact ⟨(schemaKey d).1, by simp⟩
     · intro h hh' x hx y hy
       simp at hh' hx; subst hx; subst hh'; simp at hy; subst hy; rfl
   | some hsh =>
-    dsimp only
     by_cases hk : hsh.1 = (schemaKey d).1
-    · rw [if_pos hk]
-      -- the sample goes to the last batch
+    · -- the sample goes to the last batch
       rcases List.eq_nil_or_concat c.chunks with h0 | ⟨init, lastB, hx⟩
-      · -- no batch at all (unreachable): the collector is returned unchanged
-        simp only [h0, List.getLast?_nil]
-        exact ⟨groups, g⟩
+      · exact absurd h0 g.ne
       · have hx' : c.chunks = init ++ [lastB] := by simpa using hx
         obtain ⟨ginit, glast, hgl, hrin, hrl⟩ := map_eq_concat Batch.samples (·.map valsOf) init lastB groups
           (by rw [← hx']; exact g.rows)
         have hlast : c.chunks.getLast? = some lastB := by rw [hx']; simp
-        rw [hlast]
-        dsimp only
+        rw [dyn_add_same c d hsh hh hk lastB hlast]
         have hib := (g.inv lastB (by rw [hx']; simp)).1
         have hmb := (g.inv lastB (by rw [hx']; simp)).2
         have hdrop : c.chunks.dropLast = init := by rw [hx']; simp
-        rw [hdrop]
+        simp only [hdrop]
         by_cases hok : (lastB.add d).2 = .ok
-        · refine ⟨ginit ++ [glast ++ [d]], ⟨g.pos, ?_, ?_, ?_, ?_, by intro h; simp [hh] at h⟩⟩
+        · refine ⟨ginit ++ [glast ++ [d]], ⟨g.pos, ?_, ?_, ?_, ?_, by intro h; simp [hh] at h, by simp⟩,
+            by simp [hgl, hok]⟩
           · simp only [List.map_append, List.map_cons, List.map_nil, hrin]
             rw [Batch.add_ok_appends _ d hib hok, hrl]; simp [valsOf]
           · intro b hb
@@ -445,17 +456,16 @@ theorem gd_step (c : Dynamic) (groups : List (List BDoc)) (d : BDoc) (g : GD c g
             · exact g.last hsh hh glast (by rw [hgl]; simp) y h2
             · simp at h2; subst h2; exact hk.symm
         · have hnoop := Batch.add_rejected_noop lastB d hib hok
-          refine ⟨groups, ⟨g.pos, ?_, ?_, g.one, ?_, by intro h; simp [hh] at h⟩⟩
+          refine ⟨groups, ⟨g.pos, ?_, ?_, g.one, ?_, by intro h; simp [hh] at h, by simp⟩, by simp [hok]⟩
           · simp only [hnoop]; rw [← hx']; exact g.rows
           · intro b hb; simp only [hnoop] at hb; rw [← hx'] at hb; exact g.inv b hb
           · intro h hh' x hx2 y hy
             simp only [hh] at hh'
             simp only [Option.some.injEq] at hh'; subst hh'
             exact g.last hsh hh x hx2 y hy
-    · rw [if_neg hk]
-      dsimp only
+    · rw [dyn_add_new c d hsh hh hk]
       obtain ⟨f1, f2, f3, f4⟩ := batch_fresh_add c.maxSamples g.pos d
-      refine ⟨groups ++ [[d]], ⟨g.pos, ?_, ?_, ?_, ?_, by intro h; simp at h⟩⟩
+      refine ⟨groups ++ [[d]], ⟨g.pos, ?_, ?_, ?_, ?_, by intro h; simp at h, by simp⟩, by simp [f1]⟩
       · simp only [List.map_append, List.map_cons, List.map_nil, g.rows, f2]
       · intro b hb
         rcases List.mem_append.1 hb with h | h
@@ -469,28 +479,41 @@ theorem gd_step (c : Dynamic) (groups : List (List BDoc)) (d : BDoc) (g : GD c g
         simp only [Option.some.injEq] at hh'; subst hh'
         simp at hx; subst hx; simp at hy; subst hy; rfl
 
-/-- **Over every history of `Add`s no batch of the dynamic collector mixes two schemas**: batch `i`
-holds exactly the value rows of a list of documents that all have one hash input. -/
+/-- one `Add` of the dynamic collector, remembering the accepted documents -/
+def addLogD (acc : Dynamic × List BDoc) (d : BDoc) : Dynamic × List BDoc :=
+  let r := acc.1.add d
+  (r.1, if r.2 = .ok then acc.2 ++ [d] else acc.2)
+
+/-- **Over every history of `Add`s no batch of the dynamic collector mixes two schemas, and the batches
+together hold exactly the accepted samples, once each and in order**: batch `i` holds the value rows
+of group `i`, every group has one hash input, and the groups concatenated are the accepted documents. -/
 theorem dynamic_batches_have_one_schema (n : Nat) (hn : 1 ≤ n) (ds : List BDoc) :
     ∃ groups : List (List BDoc),
-      let c := ds.foldl (fun (c : Dynamic) d => (c.add d).1) (Dynamic.new n)
-      c.chunks.map Batch.samples = groups.map (·.map valsOf) ∧ ∀ g ∈ groups, OneHash g := by
-  have : ∀ (ds : List BDoc) (c : Dynamic) (groups : List (List BDoc)), GD c groups →
-      ∃ groups', GD (ds.foldl (fun (c : Dynamic) d => (c.add d).1) c) groups' := by
+      let r := ds.foldl addLogD (Dynamic.new n, [])
+      r.1.chunks.map Batch.samples = groups.map (·.map valsOf) ∧ (∀ g ∈ groups, OneHash g) ∧
+      groups.flatten = r.2 := by
+  have : ∀ (ds : List BDoc) (c : Dynamic) (acc : List BDoc) (groups : List (List BDoc)), GD c groups →
+      groups.flatten = acc →
+      ∃ groups', GD (ds.foldl addLogD (c, acc)).1 groups' ∧ groups'.flatten = (ds.foldl addLogD (c, acc)).2 := by
     intro ds
     induction ds with
-    | nil => intro c groups g; exact ⟨groups, g⟩
+    | nil => intro c acc groups g h; exact ⟨groups, g, h⟩
     | cons d ds ih =>
-      intro c groups g
-      obtain ⟨groups', g'⟩ := gd_step c groups d g
-      exact ih _ groups' g'
+      intro c acc groups g h
+      obtain ⟨groups', g', hf⟩ := gd_step c groups d g
+      simp only [List.foldl_cons]
+      have e : addLogD (c, acc) d = ((c.add d).1, if (c.add d).2 = .ok then acc ++ [d] else acc) := rfl
+      rw [e]
+      apply ih _ _ groups' g'
+      rw [hf, h]
+      by_cases hok : (c.add d).2 = .ok <;> simp [hok]
   have g0 : GD (Dynamic.new n) [[]] :=
     ⟨hn, by simp [Dynamic.new, batch_new_samples], by
       intro b hb; simp [Dynamic.new] at hb; subst hb; exact ⟨Batch.new_inv n hn, rfl⟩,
      by intro g hg; simp at hg; subst hg; exact ⟨[], by simp⟩,
-     by intro h hh; simp [Dynamic.new] at hh, fun _ => ⟨rfl, rfl⟩⟩
-  obtain ⟨groups, g⟩ := this ds _ [[]] g0
-  exact ⟨groups, g.rows, g.one⟩
+     by intro h hh; simp [Dynamic.new] at hh, fun _ => ⟨rfl, rfl⟩, by simp [Dynamic.new]⟩
+  obtain ⟨groups, g, hf⟩ := this ds _ [] [[]] g0 (by simp)
+  exact ⟨groups, g.rows, g.one, hf⟩
 
 /-! non-vacuity -/
 example : NulFree (.cons [97] (.doc (.cons [98] (.int64 1#64) .nil)) (.cons [99] (.int64 2#64) .nil)) := by
